@@ -224,6 +224,62 @@ def contrib(ctx, kinds=("modulus", "interfacial"), setphase="all", phase="all", 
                   all((not core.is_sym(st[j])) and float(st[j]) == 0.0 for j in range(3)))
 
 
+# ------------------------------------------------------------------------------------------------ mixed -> edge / screw
+
+PAIRS = {   # mixed formula: (edge / screw reference of the class, spacing used as outer cut-off r0, reference carries the J factor)
+    "coherencyWeak": ("coherencyWeak%s", "weak", False), "coherencyStrong": ("coherencyStrong%s", "strong", True),
+    "modulusWeak": ("modulusWeak%s", "weak", False), "APBweak": ("APBweak%s", "weak", False), "APBstrong": ("APBstrong%s", "strong", False),
+    "SFEweak": ("SFEweakNarrow%s", "weak", False), "SFEstrong": ("SFEstrongNarrow%s", "strong", True),
+    "interfacialWeak": ("interfacialWeak%s", "weak", False), "interfacialStrong": ("interfacialStrongOld", "strong", True),
+}
+PSETS = {"unit": dict(G=1.3, b=0.7, nu=1 / 3, ri=0.9, eps=0.05, Gp=0.8, yAPB=0.3, ySFM=0.4, ySFP=0.15, gamma=0.25, r=(1.0, 4.0), L=(4.0, 12.0)),
+         "steel": dict(G=79.3e9, b=0.25e-9, nu=1 / 3, ri=0.5e-9, eps=0.001, Gp=70e9, yAPB=0.04, ySFM=0.1, ySFP=0.05, gamma=0.5, r=(2e-9, 1e-7), L=(2e-8, 1e-6))}
+
+
+def reduce(ctx, name="APBweak", jmodel="simple", pset="unit", tmodels=("simple", "complex", "uf"), thetas=(90, 0), tol=2e-3):
+    """a mixed-dislocation formula evaluated at 90 (0) degrees against the edge (screw) formula of the class, for symbolic radius
+    and spacing, under either line-tension model (and an arbitrary positive one, 'uf') and the given J-factor setting"""
+    P = PSETS[pset]
+    r = ctx.real("r", P["r"]); L = ctx.real("Ls", P["L"])
+    ctx.assume(r > 0); ctx.assume(L > 0)
+    refname, which, _ = PAIRS[name]
+    for tmodel in tmodels:
+        for theta in thetas:
+            sm = StrengthModel()
+            sm.setDislocationParameters(P["G"], P["b"], P["nu"], P["ri"], theta=theta, psi=120)
+            sm.setCoherencyParameters(P["eps"]); sm.setModulusParameters(P["Gp"]); sm.setAPBParameters(P["yAPB"])
+            sm.setSFEParameters(P["ySFM"], P["ySFP"], P["b"]); sm.setInterfacialParameters(P["gamma"])
+            if tmodel == "uf":
+                def anyT(th, r0, _tag="T%d" % theta):
+                    t = ctx.uf(_tag, float(th), r0, rng=(0.3 * P["G"] * P["b"] ** 2, 1.5 * P["G"] * P["b"] ** 2))
+                    ctx.assume(t > 0, "line tension positive")
+                    return t
+                sm.T = anyT
+            else:
+                sm.setTmodel(tmodel)
+            sm.setJfactor(jmodel)
+            kind = "Edge" if theta == 90 else "Screw"
+            r0 = L / np.sqrt(np.cos(sm.psi / 2)) if which == "weak" else L
+            if tmodel == "complex":
+                ctx.assume(r0 > P["ri"], "outer cut-off beyond the dislocation core (positive line tension)")
+            mixed = getattr(sm, name)(r, L, r0)
+            rn = refname % kind if "%s" in refname else refname
+            ref = getattr(sm, rn)(r, L, r0)
+            ctx.observe("mixed_%s_%d" % (tmodel, theta), mixed); ctx.observe("ref_%s_%d" % (tmodel, theta), ref)
+            # relative to |ref|; APBweak is a difference of two terms and has a root in r, so there the agreement is measured against its
+            # leading (first) term as well -- the reference formula with beta = 0 -- instead of against a difference that may cancel
+            lead = 0.0 * r
+            if name == "APBweak":
+                beta = sm.beta; sm.beta = 0
+                lead = getattr(sm, rn)(r, L, r0)
+                sm.beta = beta
+            diff = mixed - ref
+            aref = ctx.ite(ref >= 0, ref, -ref); alead = ctx.ite(lead >= 0, lead, -lead)
+            bound = tol * (aref + alead)
+            ctx.prove("%s at %d degrees reduces to %s (line tension model: %s, J factor: %s)" % (name, theta, rn, tmodel, jmodel),
+                      ctx.all([ctx.le(diff, bound, rtol=0.0), ctx.le(-bound, diff, rtol=0.0)]))
+
+
 # ------------------------------------------------------------------------------------------------ combination
 
 def _pw(x, e):
@@ -470,7 +526,7 @@ def gg_couple(ctx, nph=2, N=3):
 DISTS = {"a": [3.0, 2.0], "b": [1.0, 4.0, 2.0], "c": [2.0, 0.0, 5.0]}
 
 
-def gg_frozen(ctx, dist="a", solver="rk4"):
+def gg_frozen(ctx, dist="a", solver="rk4", wide=False):
     """real GrainGrowthModel.solve (GenericModel.solve -> DESolver.solve -> iterator -> postProcess) over one host step under
     pinning strong enough to freeze every boundary; symbolic host times, grain-growth clock and drag, concrete grain distribution"""
     wts = DISTS[dist]; n = len(wts)
@@ -479,10 +535,17 @@ def gg_frozen(ctx, dist="a", solver="rk4"):
     rp = 0.001                      # mean precipitate radius of the host step (concrete), volume fraction symbolic
     d.Ravg[1, 0] = rp
     rmin, dr = 0.05, 0.02
-    gg = GrainGrowthModel(rmin, rmin + n * dr, n, 1, 10 * n, solverType=SolverType.RK4 if solver == "rk4" else SolverType.EXPLICITEULER)
+    if wide:
+        # a grid spanning two decades of which the grains fill only the lowest classes (fewer than minBins/2): the configuration in
+        # which adjustSizeClassesEuler(checkDissolution=True) re-meshes
+        wts = list(wts) + [0.0] * (8 - n); n = 8; rmin = 0.01
+        gg = GrainGrowthModel(rmin, 1.0, n, 4, n, solverType=SolverType.RK4 if solver == "rk4" else SolverType.EXPLICITEULER)
+    else:
+        gg = GrainGrowthModel(rmin, rmin + n * dr, n, 1, 10 * n, solverType=SolverType.RK4 if solver == "rk4" else SolverType.EXPLICITEULER)
     gg.setGrainBoundaryMobility(1.0); gg.setGrainBoundaryEnergy(0.5)
     gg.LoadDistributionFunction(lambda R: np.array(wts) + 0.0 * R)
     start = [float(gg.pbm.PSD[i]) for i in range(n)]
+    grid0 = [float(gg.pbm.PSDbounds[i]) for i in range(n + 1)]
     r0 = float(gg.avgR[0])
     t_gg = ctx.real("ggclock", (0.0, 5.0))
     gg.time = np.array([t_gg])
@@ -498,6 +561,7 @@ def gg_frozen(ctx, dist="a", solver="rk4"):
     ctx.prove("class count unchanged", gg.pbm.bins == n and np.shape(gg.pbm.PSD) == (n,))
     if np.shape(gg.pbm.PSD) == (n,):
         tol = 1e-9
+        ctx.prove("frozen structure: size-class grid unchanged", ctx.all([ctx.eq(gg.pbm.PSDbounds[i], grid0[i]) for i in range(n + 1)]))
         ctx.prove("frozen structure: grain size distribution unchanged (to rounding of the re-normalisation)",
                   ctx.all([ctx.all([ctx.le(gg.pbm.PSD[i], start[i] * (1 + tol) + 0.0 * t_gg), ctx.le(start[i] * (1 - tol) + 0.0 * t_gg, gg.pbm.PSD[i])]) for i in range(n)]))
         m3 = sum(gg.pbm.PSD[i] * float(gg.pbm.PSDsize[i]) ** 3 for i in range(n))
@@ -622,6 +686,13 @@ HARNESSES = [
                               {"kinds": [], "setphase": "all", "phase": "all", "zeros": False, "exp": 1.8}],
                     "thorough": [{"kinds": list(ks), "setphase": sp, "phase": ph, "zeros": True, "exp": e} for ks in _kind_sets + [()] for (sp, ph) in (("all", "all"), ("beta", "beta"))
                                  for e in (1.8, 2) if not (len(ks) > 2 and e != 2)]}),
+    Harness("C18.reduce", reduce, functions=_FS + [getattr(StrengthModel, n) for n in PAIRS] + [StrengthModel.Tcomplex, StrengthModel.Tsimple, StrengthModel.setTmodel, StrengthModel.setJfactor],
+            assumptions=_A + ["concrete parameter sets (PSETS), radius and spacing symbolic > 0; agreement to 2e-3 relative (the class's own coefficients are rounded to 4-5 digits); "
+                              "complex line tension: outer cut-off > core radius; 'uf': an arbitrary positive line tension function of character and cut-off",
+                              "sin / cos of the concrete character angle are evaluated numerically; log / pow are uninterpreted (same arguments on both sides)"],
+            stubs=["tmodel 'uf': StrengthModel.T (a configurable attribute) set to an uninterpreted positive function"], opts={"ob_timeout": 30.0},
+            params={"quick": [{"name": n, "jmodel": "simple", "pset": "unit"} for n in PAIRS] + [{"name": n, "jmodel": "complex", "pset": "unit"} for n in PAIRS if not PAIRS[n][2]],
+                    "thorough": [{"name": n, "jmodel": j, "pset": ps} for n in PAIRS for j in ("simple", "complex") for ps in ("unit", "steel") if not (j == "complex" and PAIRS[n][2])]}),
     Harness("C18.combine", combine, functions=_FS, assumptions=_A + ["contributions as delivered by getStrengthContributions: finite and >= 0; Taylor factor > 0"],
             bounds={"contributions": "k", "radii": "n"}, opts={"ob_timeout": 30.0},
             params={"quick": [{"k": 2, "n": 2, "exp": 2}, {"k": 2, "n": 1, "exp": 1}, {"k": 2, "n": 1, "exp": 1.8}, {"k": 0, "n": 2, "exp": 1.8}, {"k": 1, "n": 2, "exp": 1.8}],
@@ -657,6 +728,19 @@ HARNESSES = [
                               {"loader": "data", "dist": "a", "solver": "rk4", "runs": 2}],
                     "thorough": [{"loader": ld, "dist": dd, "solver": sv, "runs": rn} for ld in ("function", "data") for dd in ("a", "b", "c") for sv in ("rk4", "euler") for rn in (1, 2)]}),
 ]
+
+# the two harnesses below were triage harnesses for reported findings: the J-factor one is repaired in /repo (4b1fcb0), the re-mesh one
+# is a recorded known finding (same re-mesh behaviour as the C08 finding)
+HARNESSES = HARNESSES + [
+    Harness("C18.gg_frozen_remesh", gg_frozen, functions=_FG, assumptions=_A + ["as C18.gg_frozen, on a wide grid (max = 100 min) whose populated classes are the lowest two or three of eight"],
+            params={"quick": [{"dist": "a", "solver": "rk4", "wide": True}, {"dist": "a", "solver": "euler", "wide": True}], "thorough": [{"dist": "a", "solver": sv, "wide": True} for sv in ("rk4", "euler")]}),
+    Harness("C18.reduce_Jcomplex", reduce, functions=_FS, assumptions=_A + ["setJfactor('complex')"],
+            params={"quick": [{"name": n, "jmodel": "complex", "pset": "unit"} for n in PAIRS if PAIRS[n][2]],
+                    "thorough": [{"name": n, "jmodel": "complex", "pset": ps} for n in PAIRS if PAIRS[n][2] for ps in ("unit", "steel")]}),
+]
+
+# harnesses whose obligations are violated by the unmodified code and that are not (yet) recorded; not part of the check
+PENDING = []
 
 from harness.c18_extra import EXTRA as _EXTRA
 HARNESSES = HARNESSES + _EXTRA
